@@ -156,10 +156,22 @@ class Ctx:
             n = len(ls)
             o3 = sorted(range(n), key=lambda i: (ls[i].split(' ')[0], ls[i].split(' ')[:0:-1]))
             o4 = list(range(n)); random.Random(self.seed * 7919 + ci).shuffle(o4)
-            out = self.run_c(ls + ls + [ls[i] for i in o3] + [ls[i] for i in o4], chunk=None)
-            a3 = [None] * n; a4 = [None] * n
+            # fifth pass: consecutive calls share all arguments but the last integer one, which steps by a power of two (256, 128, ...):
+            # what a memo keyed on the low bits of a macro gets wrong (seeded change C01-12: key (Z << 8) | (line & 0xff))
+            def stride_key(i):
+                t = ls[i].split(' ')
+                ints = [k for k in range(1, len(t)) if t[k].lstrip('-').isdigit()]
+                if not ints: return (t[0], tuple(t[1:]), 0, 0)
+                k = ints[-1]; v = int(t[k])
+                return (t[0], tuple(t[1:k] + t[k + 1:]), v & 0xff, v)
+            o5 = sorted(range(n), key=stride_key)
+            out = self.run_c(ls + ls + [ls[i] for i in o3] + [ls[i] for i in o4] + [ls[i] for i in o5], chunk=None)
+            a3 = [None] * n; a4 = [None] * n; a5 = [None] * n
             for k, i in enumerate(o3): a3[i] = out[2 * n + k]
             for k, i in enumerate(o4): a4[i] = out[3 * n + k]
+            for k, i in enumerate(o5): a5[i] = out[4 * n + k]
+            # a difference in the stride pass is reported through the shuffled-order slot
+            a4 = [w if w != x else v for x, w, v in zip(out[:n], a4, a5)]
             return out[:n], out[n:2 * n], a3, a4
         with ThreadPoolExecutor(max_workers=12) as ex:
             res = list(ex.map(work, enumerate(chunks)))
